@@ -24,6 +24,9 @@
 #include <symengine/symbol.h>
 #include <symengine/derivative.h>
 #include <symengine/subs.h>
+#include <symengine/ntheory_funcs.h>
+#include <symengine/polys/uratpoly.h>
+#include <symengine/polys/uintpoly.h>
 #include <symengine/symengine_exception.h>
 #include <cstring>
 #include <functional>
@@ -88,6 +91,7 @@ inline const std::map<std::string, Fn1> &unary_table()
         {"lambertw", lambertw}, {"zeta", zeta},   {"dirichlet_eta", dirichlet_eta},
         {"digamma", digamma}, {"trigamma", trigamma}, {"sqrt", sqrt},
         {"cbrt", cbrt},     {"neg", neg},         {"unevaluated", unevaluated_expr},
+        {"primepi", primepi}, {"primorial", primorial},
     };
     return t;
 }
@@ -159,6 +163,24 @@ inline RCP<const Basic> build(const Json &r, const Pool &pool, int depth = 0)
         if (r.size() < 2 || r[1].s.empty())
             throw BuildError("bigint");
         return integer(integer_class(r[1].s));
+    }
+    if (op == "uintpoly") { // ["uintpoly", symindex, c0, c1, ...] (not serialisable)
+        std::vector<integer_class> v;
+        for (size_t k = 2; k < r.size() && v.size() < 12; k++)
+            v.push_back(integer_class((long)geti(k)));
+        return UIntPoly::from_vec(sym_n(geti(1)), v);
+    }
+    if (op == "uratpoly") { // ["uratpoly", symindex, n0, d0, n1, d1, ...]: sum (n_i/d_i) x^i
+        std::vector<rational_class> v;
+        for (size_t k = 2; k + 1 < r.size() && v.size() < 12; k += 2) {
+            int64_t d = geti(k + 1, 1);
+            if (d == 0)
+                d = 1;
+            rational_class q(integer_class((long)geti(k)), integer_class((long)d));
+            canonicalize(q);
+            v.push_back(q);
+        }
+        return URatPoly::from_vec(sym_n(geti(1)), v);
     }
     if (op == "rat") {
         int64_t q = geti(2, 1);
@@ -547,7 +569,17 @@ inline Json rallbool(Rng &g, int depth, size_t poolsize);
 inline Json rallnum_leaf(Rng &g, size_t poolsize)
 {
     Json r = Json::array();
-    switch (g.below(22)) {
+    switch (g.below(23)) {
+        case 22: {
+            r.push("uratpoly");
+            r.push((long long)g.below(3));
+            unsigned n = 1 + (unsigned)g.below(5);
+            for (unsigned i = 0; i < n; i++) {
+                r.push((long long)(g.chance(1, 3) ? 0 : g.range(-9, 9)));
+                r.push((long long)g.range(1, 7));
+            }
+            return r;
+        }
         case 0:
         case 1:
             if (poolsize > 0) {
@@ -565,15 +597,50 @@ inline Json rallnum_leaf(Rng &g, size_t poolsize)
         case 5:
         case 6:
             r.push("int");
-            r.push((long long)g.range(-20, 20));
+            if (g.chance(1, 4)) { // where small-value caches and word sizes end
+                static const long long edge[] = {-129, -128, -127, -6, -5, -1, 0, 1, 99, 100, 127, 128,
+                                                 255, 256, 257, 511, 512, 1000, 1023, 1024, 4095, 4096,
+                                                 32767, 32768, 65535, 65536, 65537, 1000000};
+                r.push(edge[g.below(sizeof edge / sizeof edge[0])]);
+            } else
+                r.push((long long)g.range(-20, 20));
             return r;
         case 7: { // big integers only as operands of + and * (special
                   // functions of huge arguments recurse very deeply)
             r.push(g.chance(1, 2) ? "add" : "mul");
             Json bi = Json::array();
             bi.push("bigint");
-            bi.push(std::string(g.chance(1, 2) ? "-" : "") + "9876543210123456789"
-                    + std::to_string(g.below(100000)));
+            {
+                // around the word-size boundaries (2^31, 2^32, 2^63, 2^64,
+                // 10^18, 10^19) and random digit strings of 15-25 digits
+                static const char *edge[] = {"2147483647", "2147483648", "4294967295", "4294967296",
+                                             "9223372036854775807", "9223372036854775808",
+                                             "9223372036854775809", "9999999999999999999",
+                                             "10000000000000000000", "18446744073709551615",
+                                             "18446744073709551616", "999999999999999999",
+                                             "1000000000000000000", "9876543210123456789"};
+                std::string digits;
+                if (g.chance(1, 4)) {
+                    // 2^64 + k and 2^65 + k: equal to the small integer k in
+                    // their low 64 bits, which is all Integer::__hash__ reads
+                    long long k = g.range(-20, 20);
+                    bool twice = g.chance(1, 4);
+                    unsigned __int128 v = ((unsigned __int128)1 << (twice ? 65 : 64));
+                    v = k < 0 ? v - (unsigned __int128)(-k) : v + (unsigned __int128)k;
+                    while (v) {
+                        digits.insert(digits.begin(), (char)('0' + (int)(v % 10)));
+                        v /= 10;
+                    }
+                } else if (g.chance(1, 2))
+                    digits = edge[g.below(sizeof edge / sizeof edge[0])];
+                else {
+                    unsigned nd = 15 + (unsigned)g.below(11);
+                    digits.push_back((char)('1' + g.below(9)));
+                    for (unsigned i = 1; i < nd; i++)
+                        digits.push_back((char)('0' + g.below(10)));
+                }
+                bi.push(std::string(g.chance(1, 2) ? "-" : "") + digits);
+            }
             r.push(bi);
             Json sy = Json::array();
             sy.push("sym");
@@ -826,7 +893,7 @@ inline Json rall(Rng &g, int depth, size_t poolsize)
         "acsch", "acosh", "atanh", "acoth", "asech", "log", "exp", "abs", "sign",
         "floor", "ceiling", "truncate", "conjugate", "gamma", "loggamma", "erf",
         "erfc", "lambertw", "zeta", "dirichlet_eta", "digamma", "sqrt", "cbrt",
-        "neg", "unevaluated"};
+        "neg", "unevaluated", "primepi", "primorial"};
     static const std::vector<std::string> bin = {
         "pow", "sub", "div", "atan2", "beta", "lowergamma", "uppergamma",
         "polygamma", "kronecker_delta", "logb"};
@@ -864,7 +931,7 @@ inline Json rall(Rng &g, int depth, size_t poolsize)
         const std::string &f = un[g.below(un.size())];
         r.push(f);
         if (f == "gamma" || f == "loggamma" || f == "zeta" || f == "dirichlet_eta"
-            || f == "digamma" || f == "lambertw") {
+            || f == "digamma" || f == "lambertw" || f == "primepi" || f == "primorial") {
             // exact evaluation at integers costs time proportional to the
             // argument (factorials, Bernoulli numbers): keep arguments small
             Json a = Json::array();
